@@ -25,7 +25,8 @@ C11Moment ==
                     v[q[1]] = "[" \o v[q[2][1]] \o "," \o v[q[2][2]] \o "," \o v[q[2][3]] \o "," \o v[q[2][4]] \o "]"))
             + (IF Has(e, "bazi") THEN Chk("C11.equiv.reverse-lookup-entry-points", << k, e.bazi >>, e.bazi[1] = e.bazi[2] /\ e.bazi[2] = e.bazi[3]) ELSE 0)
             \* the hour object of the date's own slot taken from the day's list of thirteen = the date's own hour object
-            + (IF Has(e, "tms") THEN Chk("C11.equiv.hour-object-from-the-days-list", << k, e.tms >>, e.tms[1] = e.tms[2]) ELSE 0))
+            + (IF Has(e, "tms") THEN Chk("C11.equiv.hour-object-from-the-days-list", << k, e.tms >>, e.tms[1] = e.tms[2]) ELSE 0)
+            + (IF Has(e, "tms2") THEN Chk("C11.equiv.hour-object-from-the-days-list", << k, "other-side-of-23h", e.tms2 >>, e.tms2[1] = e.tms2[2]) ELSE 0))
 
 \* groups of observations with the same defining inputs: exactly one value
 FDGroups ==
